@@ -35,7 +35,7 @@ theorem domB_sound (e : Elem) (h : domB e = true) : Dom e := by
 /-- the elements of the table the exactness theorems apply to (symbols as code points) -/
 def domSymbols : List Sym := (table.filter domB).map (·.sym)
 
-theorem dom_count : 50 ≤ domSymbols.length := by decide +kernel
+theorem dom_count : domSymbols.length = 67 ∧ table.length = 120 := by decide +kernel
 
 /-- carbon, hydrogen, nitrogen, oxygen, silicon, magnesium, potassium and neon are in the domain -/
 theorem dom_chnosi : [[67], [72], [78], [79], [83, 105], [77, 103], [75], [78, 101]].all (fun s => domSymbols.contains s) = true := by
